@@ -1,13 +1,5 @@
 // ---- prelude/net_fn_spec.rs : what a layer sequence computes (C01) ----
 //@include prelude/textbook_spec.rs
-// first index holding the maximum of y[0..n]
-pub open spec fn argmax_idx(y: V, n: int) -> int
-    decreases n
-{
-    if n <= 1 { 0 } else { let j = argmax_idx(y, n - 1); if y[n - 1] > y[j] { n - 1 } else { j } }
-}
-pub open spec fn is_max_at(y: V, c: int) -> bool { forall|i: int| 0 <= i < y.len() ==> y[i] <= y[c] }
-
 // a layer is dimension-consistent with an input of `dim` components
 pub open spec fn lay_ok(dim: usize, l: Layer) -> bool {
     match l {
@@ -17,7 +9,7 @@ pub open spec fn lay_ok(dim: usize, l: Layer) -> bool {
         Layer::HardTanh(i) => i < dim,
         Layer::HardSigmoid(i) => i < dim,
         Layer::Argmax => dim >= 2,
-        Layer::ClassChar(c) => c < dim,
+        Layer::ClassChar(c) => c < dim && dim >= 2,
     }
 }
 pub open spec fn lay_out(dim: usize, l: Layer) -> usize {
